@@ -5,6 +5,7 @@ from engine import build, irload, runner
 from engine.contracts import API, LibHooks, Layout
 from engine.absval import Int, Ptr, Zero
 from engine.common import need
+from engine.lin import Aff
 
 ENTRIES = ['binson_parser_field_with_length']
 
@@ -117,6 +118,7 @@ def run(rep, tier):
             mod = irload.load(lib)
             rep.coverage.setdefault('rewind_events', {})[tag] = rewind_clause(rep, mod, tag, 'C07')
             rep.coverage.setdefault('cmp_outcomes', {})[tag] = cmp_spec(rep, mod, 'C07')
+            rep.coverage.setdefault('ensure_exits', {})[tag] = ensure_clause(rep, mod)
             if target is None:
                 lookup_clause(rep, mod, tier)
     rep.coverage.update({
@@ -228,4 +230,104 @@ def cmp_spec(rep, mod, prop='C07'):
                        '\n  '.join('%s:%d:%s' % p if p[1] else p[2] for p in s1.pathlist()[-8:]),
                        sample={'answer': name, 'justified_by': why})
     need(n >= 3, '%s: _cmp_name has fewer than 3 classified outcomes (%d)' % (prop, n))
+    return n
+
+
+# ------------------------------------------------------------------------------------------------------------------
+# the _ensure variants: succeed only if the type also matches, otherwise WRONG_TYPE
+
+class EnsureHooks(LibHooks):
+    """replaces the positioning call (lookup / next) by a summary: found or not, current level type = a tracked symbol"""
+    STUBS = ('binson_parser_field_with_length', 'binson_parser_field', 'binson_parser_next')
+
+    def stub_call(self, st, name, args, ins):
+        if name not in self.STUBS:
+            return None
+        lay = self.lay
+        F = lay.parser
+        S_ = lay.state
+        out = []
+        for found in (1, 0):
+            s = st.copy()
+            s.tags['positioned_by'] = name
+            s.tags['found'] = found
+            s.mem['STATE'] = {}
+            s.owned.add('STATE')
+            s.tags[('havoc', 'STATE')] = 'all'
+            s.tags['J'] = False
+            lv = s.fresh('ens:level', 8, 0, 254)
+            s.store.assume_ge0(s.regions['STATE'].length.sub(Aff.sym(lv).add(1).mul(lay.ssize)))
+            base = Aff.sym(lv).mul(lay.ssize)
+            o = Aff(F['current_state'][0])
+            s.wcells('P')[(o.key(), F['current_state'][1])] = (o, F['current_state'][1], Ptr('STATE', base))
+            w = S_['current_type'][1] * 8
+            t = s.fresh('ens:type', w)
+            oo = base.add(S_['current_type'][0])
+            s.wcells('STATE')[(oo.key(), S_['current_type'][1])] = (oo, S_['current_type'][1], Int(w, Aff.sym(t)))
+            s.tags['ens_type'] = t
+            o = Aff(F['error_flags'][0])
+            if found:
+                ev = Int(32, Aff(0))        # a successful positioning call leaves no error (C09 / C01 exit contracts)
+            else:
+                e0 = s.fresh('ens:error', 32, 0, 255)
+                s.tags['ens_err'] = e0
+                ev = Int(32, Aff.sym(e0))
+            s.wcells('P')[(o.key(), 4)] = (o, 4, ev)
+            for nm in ('buffer_used', 'depth'):
+                o = Aff(F[nm][0])
+                s.wcells('P')[(o.key(), F[nm][1])] = (o, F[nm][1], s.fresh_int('ens:' + nm, F[nm][1] * 8))
+            out.append((s, Int(1, Aff(found))))
+        return out
+
+
+def ensure_clause(rep, mod):
+    from engine.contracts import Contracts, _cell
+    from engine.lin import Aff as A_
+    C0 = Contracts(mod, LibHooks())
+    enums = C0._enums()
+    need('BINSON_ERROR_WRONG_TYPE' in enums, 'C07: enumerator BINSON_ERROR_WRONG_TYPE not found')
+    wrong = enums['BINSON_ERROR_WRONG_TYPE']
+    n = 0
+    for api in ('binson_parser_field_ensure_with_length', 'binson_parser_field_ensure', 'binson_parser_next_ensure'):
+        fn = mod.functions.get(api)
+        need(fn is not None, 'C07: %s not found' % api)
+        hooks = EnsureHooks()
+        C = Contracts(mod, hooks)
+        lay = C.lay
+        F = lay.parser
+        for (label, st, args) in C.entries(api):
+            if label != 'ok-d1':
+                continue
+            targ = args[-1]
+            need(isinstance(targ, Int), 'C07: the wanted type of %s is not its last parameter' % api)
+            st.frames = [C._root_frame()]
+            outs = C.split_bool_returns(C.I.call_function(st, fn, args, None))
+            for (s, rv) in outs:
+                if 'found' not in s.tags:
+                    continue            # left before positioning (NULL name etc.)
+                n += 1
+                S = s.store
+                rc = S.const_of(rv.a) if isinstance(rv, Int) else None
+                ev = _cell(s, 'P', F['error_flags'][0], 4)
+                ec = S.const_of(ev.a) if isinstance(ev, Int) else None
+                t = A_.sym(s.tags['ens_type'])
+                # the type is compared in its own width; the argument may be wider (enum passed as int)
+                d = t.sub(targ.a)
+                where = '%s after %s %s' % (api, s.tags['positioned_by'], 'succeeded' if s.tags['found'] else 'failed')
+                if not s.tags['found']:
+                    same = isinstance(ev, Int) and S.entails_eq0(ev.a.sub(A_.sym(s.tags['ens_err'])))
+                    rep.ob(rc == 0 and same, '%s:ENSURE:not-found' % api,
+                           'C07 ENSURE %s: returns %r / error flag %r - it must return false and leave the error as the positioning call left it' % (where, rc, ev), '',
+                           sample={'function': api, 'case': 'positioning failed', 'returns': rc})
+                elif rc == 1:
+                    rep.ob(S.entails_eq0(d) and ec == 0, '%s:ENSURE:true' % api,
+                           'C07 ENSURE %s: returns true although the current type is not shown to equal the wanted type (or an error is set: %r)' % (where, ev), '',
+                           sample={'function': api, 'case': 'found, returns true', 'type_equals_wanted': True})
+                elif rc == 0:
+                    rep.ob(S.entails_ne0(d) and ec == wrong, '%s:ENSURE:wrong-type' % api,
+                           'C07 ENSURE %s: returns false after a successful positioning call, but not with "type differs and WRONG_TYPE is set" (error flag %r)' % (where, ev), '',
+                           sample={'function': api, 'case': 'found, type differs', 'error': 'WRONG_TYPE'})
+                else:
+                    rep.ob(False, '%s:ENSURE:ret' % api, 'C07 ENSURE %s: result is not a constant' % where, '')
+    need(n >= 6, 'C07: only %d exits of the _ensure variants classified' % n)
     return n
